@@ -35,6 +35,11 @@ CHECKS = {
    "The harness polls receive futures by hand and drops them at generated suspension points; the sequence of results must equal the reference decode of each frame. All subsets of <= 12 suspension points of 30 small streams and every k for byte-at-a-time delivery are enumerated.",
    "Trusted: the simulated read half is itself cancel safe; reference as in C01. Only cancellation of the connection's own receive futures is covered here (the server's use of them is exercised by C08-C10).",
    "§3 C07"),
+ "C06": ("exploration", "vcheck",
+   "model-based property testing of chains (proptest, shrinking): generated flag sequences + conforming server scripts + trailing frames + chunkings, stream polled by hand; exhaustive enumeration of all flag sequences up to length 4 x 3 script families x 3 trailing counts x 6 chunkings; oracle = owed-reply model + reference decode + transport poll counter",
+   "Chains of 1..6 calls over {plain, oneway, more} are sent through Connection::chain_call/append/send against a scripted transport that then stays silent; the single transport write must equal the calls' reference encodings, the stream must yield exactly the owed replies (as the reference classifies each frame) and then None without polling the transport, and a later receive_reply must still find every trailing frame.",
+   "Trusted: conforming server scripts only (non-conforming servers are outside the statement); reply classification reference as in C04; hand polling with a no-op waker (a Pending with an exhausted script is 'waits forever').",
+   "§3 C06"),
  "C17": ("exploration", "vcheck",
    "exhaustive size sweep (every inbound frame size 1..=limit+512 x chunk sizes, outbound sizes around every 256-byte step and the limit from several fill positions) under a hook-lowered limit of 83*256 bytes + production-limit inbound cases (100 MiB -257/-256/-2/-1/+0/+1/+300, unterminated over/under); threshold oracle from the statement + byte-exact delivery",
    "Every inbound frame size up to limit+512 is received under 4-6 chunk sizes (terminated, unterminated+EOF, unterminated+waiting, behind pipelined prefixes) and every relevant outbound size is sent from an empty queue and behind an enqueued message: below the limit => intact, above => BufferOverflow with nothing of the refused message written, the queued message and a later message intact; the receive buffer (inferred from the slices offered to the read half) never exceeds limit+256. The production build confirms the inbound thresholds at 100 MiB.",
